@@ -28,6 +28,28 @@ import (
 	"gopkg.in/yaml.v2"
 )
 
+// dotID renders a name (of a node) as a Graphviz ID.
+//
+// A name that isn't quoted is an ID only if it is alphanumeric (and
+// not a keyword such as "node"); "test-1", "two words" or "@target"
+// are not.  So quote every name.  Inside the quotes, Graphviz
+// understands only the escapes \" and \\.
+func dotID(name string) string {
+	name = strings.Replace(name, `\`, `\\`, -1)
+	name = strings.Replace(name, `"`, `\"`, -1)
+	name = strings.Replace(name, "\n", `\n`, -1)
+	return `"` + name + `"`
+}
+
+// dotText renders text for use inside of a Graphviz HTML-like label,
+// which is XML.
+func dotText(s string) string {
+	s = strings.Replace(s, "&", `&amp;`, -1)
+	s = strings.Replace(s, "<", `&lt;`, -1)
+	s = strings.Replace(s, ">", `&gt;`, -1)
+	return s
+}
+
 // Dot makes a Graphviz dot file for the given machine.  A really ugly
 // dot file.
 //
@@ -63,7 +85,7 @@ func Dot(spec *Spec, w io.WriteCloser, fromNode, toNode string) error {
 			return nil
 		}
 		seen[name] = true
-		label := name
+		label := dotText(name)
 		if n.Doc != "" {
 			doc := n.Doc
 			if 40 < len(doc) {
@@ -72,7 +94,7 @@ func Dot(spec *Spec, w io.WriteCloser, fromNode, toNode string) error {
 					doc = doc[0 : period+1]
 				}
 			}
-			label += "<BR/><FONT POINT-SIZE='8'>" + doc + "</FONT>"
+			label += "<BR/><FONT POINT-SIZE='8'>" + dotText(doc) + "</FONT>"
 		}
 		fillcolor := "#99ddc8"
 		if n.Branches != nil {
@@ -97,8 +119,7 @@ func Dot(spec *Spec, w io.WriteCloser, fromNode, toNode string) error {
 			} else {
 				src = fmt.Sprintf("%#v", n.ActionSource.Source)
 			}
-			src = strings.Replace(src, "<", `&lt;`, -1)
-			src = strings.Replace(src, ">", `&gt;`, -1)
+			src = dotText(src)
 			label += `<FONT POINT-SIZE="6">` +
 				`<BR/>` + strings.Replace(string(src)+"\n", "\n", `<BR ALIGN="LEFT"/>`, -1) + `<BR/>` +
 				`</FONT>`
@@ -113,8 +134,9 @@ func Dot(spec *Spec, w io.WriteCloser, fromNode, toNode string) error {
 		if n.Branches == nil || len(n.Branches.Branches) == 0 {
 			style += ",dashed"
 		}
+		label = strings.Replace(label, "\n", " ", -1)
 		fmt.Fprintf(w, "  %s [shape=\"%s\", style=\"%s\", color=\"%s\", fillcolor=\"%s\", label=<%s> ]\n",
-			name, shape, style, color, fillcolor, label)
+			dotID(name), shape, style, color, fillcolor, label)
 
 		return nil
 	}
@@ -155,7 +177,7 @@ func Dot(spec *Spec, w io.WriteCloser, fromNode, toNode string) error {
 				if err != nil {
 					js = []byte(err.Error())
 				}
-				label = string(js)
+				label = dotText(string(js))
 				label = strings.Replace(label, "\n", `<BR ALIGN="LEFT"/>`, -1)
 			}
 			label += `<BR ALIGN="LEFT"/>`
@@ -184,8 +206,7 @@ func Dot(spec *Spec, w io.WriteCloser, fromNode, toNode string) error {
 					} else {
 						src = fmt.Sprintf("%#v", x)
 					}
-					src = strings.Replace(src, "<", `&lt;`, -1)
-					src = strings.Replace(src, ">", `&gt;`, -1)
+					src = dotText(src)
 					label += `<FONT POINT-SIZE="6">` +
 						`<BR/>` + strings.Replace(src+"\n", "\n", `<BR ALIGN="LEFT"/>`, -1) + `<BR/>` +
 						`</FONT>`
@@ -203,7 +224,7 @@ func Dot(spec *Spec, w io.WriteCloser, fromNode, toNode string) error {
 			// label = fmt.Sprintf("[%d/%d] %s", i+1, len(n.Branches.Branches), label)
 			label = fmt.Sprintf("%d/%d %s", i+1, len(n.Branches.Branches), label)
 			fmt.Fprintf(w, "  %s -> %s [ color=\"%s\" label = <%s> ]\n",
-				name, b.Target, color, label)
+				dotID(name), dotID(b.Target), color, label)
 		}
 
 		return nil
